@@ -183,12 +183,14 @@ func verifyHeader(
 // in a batch of parents (ascending order) to avoid looking those up from the
 // database. This is useful for concurrently verifying a batch of new headers.
 func VerifyCascadingFields(header Header) error {
+	// The verdict on a header must be the same on every node: when the local temp
+	// directory is unusable, keep the verification cache in memory instead of failing.
 	cachedir, err := ioutil.TempDir("", "")
 	if err != nil {
-		fmt.Println(err)
-		return errEthashStopped
+		cachedir = ""
+	} else {
+		defer os.RemoveAll(cachedir)
 	}
-	defer os.RemoveAll(cachedir)
 	config := Config{
 		CacheDir:     cachedir,
 		CachesOnDisk: 1,
